@@ -194,6 +194,29 @@ def run(ctx):
                     bad.append((f"op.drop_column({', '.join(src(a) for a in c.args)})", c.lineno))
                 elif la == "delete" and ("session" in d or "query" in d):
                     bad.append((f"{d}()", c.lineno))
+                elif la == "merge" and "session" in d:
+                    # merge() overwrites the stored row that has the same primary key with the given object's columns
+                    bad.append((f"{d}({src(c.args[0])[:40] if c.args else ''}) overwrites an existing row with the same primary key", c.lineno))
+                elif la == "update" and c.args and isinstance(c.args[0], ast.Dict) and c.args[0].keys and all(isinstance(k, (ast.Attribute, ast.Constant)) for k in c.args[0].keys):
+                    colnames = [k.attr if isinstance(k, ast.Attribute) else str(k.value) for k in c.args[0].keys]
+                    allowed_any = set().union(*added_cols[rev].values()) if added_cols[rev] else set()
+                    off = [x for x in colnames if x not in allowed_any]
+                    if off:
+                        bad.append((f"Query.update of pre-existing column(s) {off}", c.lineno))
+            # ORM rows loaded from the database and modified in place
+            loaded = set()
+            for w in ast.walk(f):
+                if isinstance(w, (ast.For, ast.comprehension)) and any(isinstance(q, ast.Call) and last_attr(q) == "query" for q in ast.walk(w.iter)):
+                    loaded |= {n.id for n in ast.walk(w.target) if isinstance(n, ast.Name)}
+                if isinstance(w, ast.For) and isinstance(w.iter, ast.Call) and (call_name(w.iter) or "") in m.funcs and any(isinstance(q, ast.Call) and last_attr(q) == "query" for q in ast.walk(m.funcs[call_name(w.iter)])):
+                    loaded |= {n.id for n in ast.walk(w.target) if isinstance(n, ast.Name)}
+            for w in ast.walk(f):
+                if isinstance(w, (ast.Assign, ast.AugAssign)):
+                    for tg in (w.targets if isinstance(w, ast.Assign) else [w.target]):
+                        if isinstance(tg, ast.Attribute) and isinstance(tg.value, ast.Name) and tg.value.id in loaded:
+                            allowed_any = set().union(*added_cols[rev].values()) if added_cols[rev] else set()
+                            if tg.attr not in allowed_any:
+                                bad.append((f"ORM row `{src(tg)}` of an existing table is modified in place", w.lineno))
             # SQL text
             for sql, line in _sql_strings(f):
                 for st in _statements(sql):
